@@ -44,37 +44,52 @@ enum Seen {
 const PROBE_CHUNKED: &[u8] = b"3\r\nabc\r\n4;x=y\r\ndefg\r\n0\r\n\r\nHTTP/1.1 2";
 const PROBE_RAW: &[u8] = b"abcdefgHTTP/1.1 2";
 
+/// Read with a large buffer until no more progress (a reader need not deliver everything in one call).
+fn read_all<F: FnMut(&[u8], &mut [u8]) -> Result<(usize, usize), String>>(mut read: F, input: &[u8]) -> Result<(usize, Vec<u8>), String> {
+    let mut off = 0;
+    let mut got = Vec::new();
+    let mut out = [0u8; 64];
+    for _ in 0..64 {
+        let (c, p) = read(&input[off..], &mut out)?;
+        off += c;
+        got.extend_from_slice(&out[..p]);
+        if c == 0 && p == 0 {
+            break;
+        }
+    }
+    Ok((off, got))
+}
+
 /// Confirms the framing actually applied by reading a probe; returns a description on mismatch.
 fn probe_flow(b: &mut ureq_proto::client::flow::Flow<(), ureq_proto::client::flow::state::RecvBody>, f: Framing) -> Option<String> {
-    let mut out = [0u8; 64];
     match f {
-        Framing::Chunked => match b.read(PROBE_CHUNKED, &mut out) {
-            Ok((c, p)) => {
-                if &out[..p] != b"abcdefg" || c != PROBE_CHUNKED.len() - 10 || !b.can_proceed() {
-                    return Some(format!("chunked probe: consumed {} produced {:?} ended {}", c, show(&out[..p]), b.can_proceed()));
+        Framing::Chunked => match read_all(|i, o| b.read(i, o).map_err(|e| format!("{:?}", e)), PROBE_CHUNKED) {
+            Ok((c, got)) => {
+                if got != b"abcdefg" || c != PROBE_CHUNKED.len() - 10 || !b.can_proceed() {
+                    return Some(format!("chunked probe: consumed {} produced {:?} ended {}", c, show(&got), b.can_proceed()));
                 }
                 None
             }
-            Err(e) => Some(format!("chunked probe failed: {:?}", e)),
+            Err(e) => Some(format!("chunked probe failed: {}", e)),
         },
-        Framing::Length(n) => match b.read(PROBE_RAW, &mut out) {
-            Ok((c, p)) => {
+        Framing::Length(n) => match read_all(|i, o| b.read(i, o).map_err(|e| format!("{:?}", e)), PROBE_RAW) {
+            Ok((c, got)) => {
                 let want = (n.min(PROBE_RAW.len() as u64)) as usize;
-                if c != want || p != want || out[..p] != PROBE_RAW[..want] || b.can_proceed() != (n as usize <= PROBE_RAW.len()) {
-                    return Some(format!("length probe (n={}): consumed {} produced {} ended {}", n, c, p, b.can_proceed()));
+                if c != want || got != PROBE_RAW[..want] || b.can_proceed() != (n as usize <= PROBE_RAW.len()) {
+                    return Some(format!("length probe (n={}): consumed {} produced {} ended {}", n, c, got.len(), b.can_proceed()));
                 }
                 None
             }
-            Err(e) => Some(format!("length probe failed: {:?}", e)),
+            Err(e) => Some(format!("length probe failed: {}", e)),
         },
-        Framing::Close => match b.read(PROBE_RAW, &mut out) {
-            Ok((c, p)) => {
-                if c != PROBE_RAW.len() || out[..p] != PROBE_RAW[..] || !b.can_proceed() {
-                    return Some(format!("close-delimited probe: consumed {} produced {}", c, p));
+        Framing::Close => match read_all(|i, o| b.read(i, o).map_err(|e| format!("{:?}", e)), PROBE_RAW) {
+            Ok((c, got)) => {
+                if c != PROBE_RAW.len() || got != PROBE_RAW || !b.can_proceed() {
+                    return Some(format!("close-delimited probe: consumed {} produced {}", c, got.len()));
                 }
                 None
             }
-            Err(e) => Some(format!("close probe failed: {:?}", e)),
+            Err(e) => Some(format!("close probe failed: {}", e)),
         },
         _ => None,
     }
@@ -137,26 +152,25 @@ fn call_cell(base: &ureq_proto::client::call::Call<ureq_proto::client::call::sta
                     if b.is_close_delimited() {
                         return Seen::Body("Close".into());
                     }
-                    let mut out = [0u8; 64];
                     if b.is_ended() {
                         return Seen::Body("Length(0)".into());
                     }
                     // try as chunked first
                     let mut b2 = b.clone();
-                    if let Ok((cc, p)) = b2.read(PROBE_CHUNKED, &mut out) {
-                        if &out[..p] == b"abcdefg" && cc == PROBE_CHUNKED.len() - 10 && b2.is_ended() {
+                    if let Ok((cc, got)) = read_all(|i, o| b2.read(i, o).map_err(|e| format!("{:?}", e)), PROBE_CHUNKED) {
+                        if got == b"abcdefg" && cc == PROBE_CHUNKED.len() - 10 && b2.is_ended() {
                             return Seen::Body("Chunked".into());
                         }
                     }
-                    match b.read(PROBE_RAW, &mut out) {
-                        Ok((cc, p)) if cc == p && out[..p] == PROBE_RAW[..p] => {
+                    match read_all(|i, o| b.read(i, o).map_err(|e| format!("{:?}", e)), PROBE_RAW) {
+                        Ok((cc, got)) if cc == got.len() && got[..] == PROBE_RAW[..cc] => {
                             if b.is_ended() {
                                 Seen::Body(format!("Length({})", cc))
                             } else {
                                 Seen::Body("Length(>probe)".into())
                             }
                         }
-                        o => Seen::Other(format!("probe read: {:?}", o)),
+                        o => Seen::Other(format!("probe read: {:?}", o.map(|x| x.0))),
                     }
                 }
             }
